@@ -721,10 +721,12 @@ def cxOnePoint(ind1, ind2):
             types1[node.ret].append(idx)
         for idx, node in enumerate(ind2[1:], 1):
             types2[node.ret].append(idx)
-        common_types = set(types1.keys()).intersection(set(types2.keys()))
+        # In order of first appearance in ind1: the iteration order of a set
+        # of types depends on their addresses and differs between runs.
+        common_types = [type_ for type_ in types1 if type_ in types2]
 
     if len(common_types) > 0:
-        type_ = random.choice(list(common_types))
+        type_ = random.choice(common_types)
 
         index1 = random.choice(types1[type_])
         index2 = random.choice(types2[type_])
@@ -776,11 +778,12 @@ def cxOnePointLeafBiased(ind1, ind2, termpb):
         if arity_op2(node.arity):
             types2[node.ret].append(idx)
 
-    common_types = set(types1.keys()).intersection(set(types2.keys()))
+    # In order of first appearance in ind1: the iteration order of a set
+    # of types depends on their addresses and differs between runs.
+    common_types = [type_ for type_ in types1 if type_ in types2]
 
     if len(common_types) > 0:
-        # Set does not support indexing
-        type_ = random.choice(list(common_types))
+        type_ = random.choice(common_types)
         index1 = random.choice(types1[type_])
         index2 = random.choice(types2[type_])
 
